@@ -89,6 +89,9 @@ type Contract struct {
 	Requires   []*Clause
 	Ensures    []*Clause
 	CallSites  []*Clause
+	HasCallees bool
+	Callees    []string
+	CalleeTags []string
 	Loops      map[int]*LoopSpec
 	Decreases  CExpr
 	File       string
@@ -166,7 +169,7 @@ func NewSpecs() *Specs {
 	return &Specs{Fns: map[string]*SpecFn{}, Consts: map[string]*SpecConst{}, Defines: map[string]*SpecDefine{}, Ghosts: map[string]string{}, IfacePure: map[string]bool{}}
 }
 
-var directiveRe = regexp.MustCompile(`^(sort|fn|const|define|axiom|lemma|ginv|pkginv|noinv|needsinv|inline|ghost|errattr|ifacepure|package|func|trusted|pure|modifies|let|requires|assume|ensures|callsite|loop|invariant|decreases|bind)\b`)
+var directiveRe = regexp.MustCompile(`^(sort|fn|const|define|axiom|lemma|ginv|pkginv|noinv|needsinv|inline|ghost|errattr|ifacepure|package|func|trusted|pure|modifies|let|requires|assume|ensures|callsite|callees|loop|invariant|decreases|bind)\b`)
 
 type logicalLine struct {
 	text string
@@ -459,6 +462,22 @@ func (s *Specs) LoadFile(path string, repoStyle bool, defaultPkg string) error {
 				cur.Loops[curLoop].DecSrc = rest
 			} else {
 				cur.Decreases = e
+			}
+		case "callees":
+			// callees[Cxx] f, g, ...: the only functions of the repository this function may call
+			if cur == nil {
+				return errf("callees outside func block")
+			}
+			m := regexp.MustCompile(`^callees(\[[^\]]*\])?\s+(.*)$`).FindStringSubmatch(t)
+			if m == nil {
+				return errf("bad callees")
+			}
+			cur.HasCallees = true
+			cur.CalleeTags = parseTags(m[1])
+			for _, c := range splitTop(m[2]) {
+				if c = strings.TrimSpace(c); c != "" {
+					cur.Callees = append(cur.Callees, c)
+				}
 			}
 		case "callsite":
 			// callsite[Cxx] LABEL NAME: EXPR   -- must hold at the call LABEL (e.g. add#2); EXPR may use the
